@@ -87,6 +87,11 @@ def gen_model(r, *, budget=6000, max_T=4, force=None):
         n_cs = min(n_cs, 1)
     if force & {"log", "cs"}:
         n_cs = max(n_cs, 1)
+    if "bigdisc" in force:
+        n_ds = 1
+        n_cs = min(n_cs, 1)
+        n_cc = min(n_cc, 1)
+        n_dc = max(1, min(n_dc, 1))
     if "cs2" in force:
         n_cs = 2          # two continuous states (sizes pairwise different, in random order)
     names = NAMES[:]
@@ -106,6 +111,9 @@ def gen_model(r, *, budget=6000, max_T=4, force=None):
         for kind, n in (("ds", n_ds), ("dc", n_dc)):
             out[kind] = [disc_pool[i % len(disc_pool)] for i in range(n)]
             disc_pool = disc_pool[n:] + disc_pool[:n]
+        if "bigdisc" in force and out["ds"]:
+            # one discrete state with many categories (more than 16 restricted-state combinations once a filter involves it)
+            out["ds"][0] = r.choice([17, 18, 20, 24])
         if "eqsize" in force:
             # equal axis lengths: transposed or mis-paired axes do not raise shape errors but give wrong numbers
             k = r.choice([2, 3])
